@@ -273,6 +273,7 @@ def main():
     ap.add_argument('--workers', type=int, default=3)
     ap.add_argument('--procs', type=int, default=4)
     ap.add_argument('--tests', action='store_true')
+    ap.add_argument('--only', default='', help='substring of mutant ids to (re)run')
     a = ap.parse_args()
     if a.cmd == 'list':
         _, ms = mutants_of(a.target, a.seed, a.per_func)
@@ -291,7 +292,7 @@ def main():
                 done.add(json.loads(l)['id'])
             except Exception:
                 pass
-    jobs = [j for j in jobs if j[2]['id'] not in done]
+    jobs = [j for j in jobs if (a.only in j[2]['id'] if a.only else j[2]['id'] not in done)]
     print('%d mutants to run' % len(jobs), flush=True)
     wts = []
     for k in range(a.workers):
